@@ -259,6 +259,14 @@ def t5():
             yield NL(3, [('latch', f'g{k}'), ('dff', 'i1')], gates + [('XOR2', ('q0', 'n1'))], [f'g{n - 1}', f'g{n}'])
 
 
+def big():
+    """structures beyond small-integer widths: 300 levels, a fan-out of 300, 300 gates in one level (1-2 inputs, few outputs)"""
+    from mc.netlist import NL
+    yield NL(1, [], [('INV1', ('i0',))] + [('INV1' if k % 3 else 'BUF1', (f'g{k - 1}',)) for k in range(1, 300)], ['g299', 'g150', 'g256'])
+    yield NL(2, [], [('BUF1', ('i0',))] + [(('XOR2', 'NAND2', 'OR2')[k % 3], ('g0', 'i1')) for k in range(1, 301)], ['g300', 'g1', 'g257'])
+    yield NL(1, [('dff', 'g259')], [('XOR2', ('i0', 'q0'))] + [('AND2' if k % 2 else 'OR2', (f'g{k - 1}', 'i0')) for k in range(1, 260)], ['g259', 'n0'])
+
+
 def take_slice(gen, nslices, which):
     for i, x in enumerate(gen):
         if i % nslices == which: yield x
